@@ -207,6 +207,33 @@ CLAIMED["C14"] = {
 }
 
 NOT_APPLICABLE = {
+    "C01": "needs a Cert value: decoding one hits a Kani 0.68 internal "
+           "compiler error (IP-resources decoder), constructing one needs a "
+           "decoded PublicKey plus SHA-1/RSA through aws-lc FFI; the one "
+           "reachable building block (AsBlocks::verify_issued) ran out of "
+           "14 GB. No solver query for this property finished, so nothing "
+           "is claimed (DESIGN.md section 3)",
+    "C04": "every decoder entry point carrying a certificate is behind the "
+           "Kani ICE on the IP-resources decoder; the remaining bcder "
+           "decoders cost 1-10 min of solver time per handful of symbolic "
+           "bytes, which does not amount to a claim about arbitrary input",
+    "C05": "builders produce CMS objects / certificates whose decoders "
+           "cannot be compiled by Kani (ICE) and whose signing is aws-lc "
+           "FFI; the content builders rely on BytesMut/Captured buffers "
+           "whose queries did not finish",
+    "C06": "every path of the RTR client goes through tokio::time::timeout "
+           "(thread-local coop budget): Kani ICE at compile time",
+    "C08": "the property quantifies over notify interleavings "
+           "(tokio broadcast::Receiver::recv: Kani ICE) and fragmentation "
+           "through Connection::recv, whose reader stack already does not "
+           "finish for C07's variable-length PDUs",
+    "C10": "needs SignedMessage / IdCert values: construction and "
+           "validation run through aws-lc FFI and bcder capture buffers; "
+           "the shared piece that is decidable (SignedAttrs::encode_verify) "
+           "is decided under C02",
+    "C11": "quick-xml cannot be executed by Kani (memchr's CPU feature "
+           "detection is inline assembly; measured on a concrete document), "
+           "so neither round trip nor parser robustness can be decided",
 }
 
 ALL = ["C%02d" % i for i in range(1, 18)]
